@@ -92,6 +92,14 @@ class Ptr:
         return '&' + self.obj.label + ''.join('[%d]' % p if isinstance(p, int) else '.' + p for p in self.path)
 
 
+class BytePtr(Ptr):
+    """a pointer into an array viewed as bytes ((char *)p): arithmetic is in bytes of `scale` per element"""
+    __slots__ = ('scale',)
+    def __init__(self, obj, path, scale):
+        Ptr.__init__(self, obj, path)
+        self.scale = scale
+
+
 class FnRef:
     def __init__(self, name): self.name = name
     def __eq__(self, o): return isinstance(o, FnRef) and o.name == self.name
@@ -374,6 +382,9 @@ class Interp:
     def assign(self, obj, path, v, q=None):
         if obj.kind == 'str' and not getattr(obj, 'writable', False):
             raise Unsupported('write to string literal')
+        if obj.kind == 'symstr' and len(path) == 1 and isinstance(v, int):
+            obj.f[path] = v
+            return
         if isinstance(v, StructVal):
             pl = len(path)
             for k in [k for k in obj.f if k[:pl] == path]:
@@ -417,6 +428,8 @@ class Interp:
                 return v
         if obj.kind == 'extern':
             return self.extern_load(obj, path, q)
+        if obj.kind == 'symstr':
+            return obj.symstr.load(self, obj, path)
         if obj.kind == 'str':
             raise Unsupported('read past end of string %r' % obj.label)
         return UNINIT
@@ -508,6 +521,10 @@ class Interp:
         raise Unsupported('lv %s at %s' % (k, self.where(e)))
 
     def padd(self, p, n):
+        if isinstance(p, BytePtr):
+            if n % p.scale:
+                raise Unsupported('byte pointer moved by %d, element size %d' % (n, p.scale))
+            return BytePtr(p.obj, p.path[:-1] + (p.path[-1] + n // p.scale,), p.scale)
         if n == 0 and (not p.path or not isinstance(p.path[-1], int)):
             return p
         if not p.path or not isinstance(p.path[-1], int):
@@ -768,6 +785,11 @@ class Interp:
                     return float('inf') if v > 0 else float('-inf')
             return v
         if ck in ('NoOp', 'BitCast'):
+            if ck == 'BitCast' and isinstance(v, Ptr) and not isinstance(v, BytePtr) and getattr(v.obj, 'elemsize', 0) > 1 \
+                    and re.match(r'^(const )?(unsigned |signed )?char \*( const| restrict)?$', qstr(e['type']).strip()) and v.path and isinstance(v.path[-1], int):
+                return BytePtr(v.obj, v.path, v.obj.elemsize)
+            if isinstance(v, BytePtr) and not re.match(r'^((const )?(unsigned |signed )?char|(const )?void) \*( const| restrict)?$', qstr(e['type']).strip()):
+                return Ptr(v.obj, v.path)
             return v
         if ck == 'IntegralToFloating':
             if isinstance(v, int): return float(v)
